@@ -443,7 +443,13 @@ def parseLine(raw, eols=(CRLF, LF, CR ), kind="event line"):
 
     Raise error if eol not found before MAX_LINE_SIZE
     """
+    skip = False  # True when last line ended in CR at end of raw, its LF may come next
     while True:
+        if skip and raw:  # drop LF that completes a CRLF split across reads
+            if raw[:1] == LF:
+                del raw[:1]
+            skip = False
+
         index = -1
         for sep in eols:  # find earliest eol, first listed wins ties
             idx = raw.find(sep)  # not found idx == -1
@@ -464,6 +470,8 @@ def parseLine(raw, eols=(CRLF, LF, CR ), kind="event line"):
         line = raw[:index]
         index += len(eol)  # strip eol
         del raw[:index] # remove used bytes
+        if eol == CR and CRLF in eols and not raw:  # CR may be first half of CRLF
+            skip = True
         (yield line)
     return
 
